@@ -695,7 +695,10 @@ func NewModuleConfig() ModuleConfig {
 
 // clone makes a deep copy of this module config.
 func (c *moduleConfig) clone() *moduleConfig {
-	ret := *c // copy except maps which share a ref
+	ret := *c // copy except slices and maps which share a ref
+	// environ is copied as WithEnv overwrites and appends elements in-place.
+	ret.environ = make([][]byte, len(c.environ))
+	copy(ret.environ, c.environ)
 	ret.environKeys = make(map[string]int, len(c.environKeys))
 	for key, value := range c.environKeys {
 		ret.environKeys[key] = value
